@@ -438,20 +438,37 @@ func checkC07(c c07Case, ctx *vCtx) *vFailure {
 				continue
 			}
 			n++
-			rows := vReadSingleFood(run("reg", "-f", vQuoteMeta(lit)).Stdout)
-			var want [][]string
-			for _, r := range csvLog {
-				if strings.Contains(r[1], lit) {
-					want = append(want, r)
+			// the literal as it is (matches anywhere in the name) and anchored at both ends, at the start or at the end
+			forms := []struct {
+				pat   string
+				match func(name string) bool
+				what  string
+			}{
+				{vQuoteMeta(lit), func(name string) bool { return strings.Contains(name, lit) }, "contains it"},
+				{"^" + vQuoteMeta(lit) + "$", func(name string) bool { return name == lit }, "is exactly it"},
+				{"^" + vQuoteMeta(lit), func(name string) bool { return strings.HasPrefix(name, lit) }, "starts with it"},
+				{vQuoteMeta(lit) + "$", func(name string) bool { return strings.HasSuffix(name, lit) }, "ends with it"},
+				{"^(" + vQuoteMeta(lit) + ")$", func(name string) bool { return name == lit }, "is exactly it"},
+			}
+			for fi, form := range forms {
+				if fi >= 2 && fi != 2+(n+len(csvLog))%3 {
+					continue
 				}
-			}
-			if len(rows) != len(want) {
-				return vFailf("R9: reg -f %q shows %d rows, csv log has %d rows whose food contains it", lit, len(rows), len(want))
-			}
-			for i, w := range want {
-				g := rows[i]
-				if dayOf(g.Date) != isoToSlash(w[0]) || g.Name != w[1] || vRatAbs(vRatSub(vNum(g.Val), vNum(w[2]))).Cmp(big.NewRat(55, 10000)) > 0 {
-					return vFailf("R9: reg -f %q row %d = %v, csv log row = %v", lit, i, g, w)
+				rows := vReadSingleFood(run("reg", "-f", form.pat).Stdout)
+				var want [][]string
+				for _, r := range csvLog {
+					if form.match(r[1]) {
+						want = append(want, r)
+					}
+				}
+				if len(rows) != len(want) {
+					return vFailf("R9: reg -f %q shows %d rows, csv log has %d rows whose food %s", form.pat, len(rows), len(want), form.what)
+				}
+				for i, w := range want {
+					g := rows[i]
+					if dayOf(g.Date) != isoToSlash(w[0]) || g.Name != w[1] || vRatAbs(vRatSub(vNum(g.Val), vNum(w[2]))).Cmp(big.NewRat(55, 10000)) > 0 {
+						return vFailf("R9: reg -f %q row %d = %v, csv log row = %v", form.pat, i, g, w)
+					}
 				}
 			}
 			ctx.Label("R9")
